@@ -21,11 +21,44 @@ func checkC13(c *Ctx) {
 			{"len>=0", `^0 <= p2$`},
 			{"ell<=255", `^\(\(\(.*p2\)-1\)/.*\) <= 255$`},
 			{"len(dst)<=255", `^len\(p1\) <= 255$`},
-			{"msg-hashed", `^noerr Writer\.Write\(.*,p0\)$`},
-			{"dst-hashed", `^noerr Writer\.Write\(.*,p1\)$`},
-			{"length-hashed", `^noerr Writer\.Write\(.*,\[\(p2>>8\),p2,0\]\)$`},
-			{"dst-length-hashed", `^noerr Writer\.Write\(.*,\[len\(p1\)\]\)$`},
 		})
+		// what is fed to the hash: decided on the inlined view (the writes may sit in a helper such as
+		// hashConcat(h, parts...)): every Write on the hash has its error tested, and msg, the contents
+		// of dst, the length of dst and lenInBytes each flow into the written data
+		{
+			v := NewIView(fn)
+			var sinks []ivValue
+			unchecked := ""
+			for _, x := range v.Instrs() {
+				call, ok := x.in.(*ssa.Call)
+				if !ok || !call.Call.IsInvoke() || call.Call.Method.Name() != "Write" || len(call.Call.Args) != 1 {
+					continue
+				}
+				sinks = append(sinks, ivValue{x.fr, call.Call.Args[0]})
+				tested := errResultTested(call)
+				for fr := x.fr; tested && fr.parent != nil; fr = fr.parent {
+					if sc, isCall := fr.site.(*ssa.Call); !isCall || !errResultTested(sc) {
+						tested = false
+					}
+				}
+				if !tested {
+					unchecked = p.Pos(instrPos(call))
+				}
+			}
+			pk, fk := relPkg(fnPkgPath(fn)), funcKey(fn)
+			c.Ob("C13.guard", pk, fk, "hash-writes-present", p.Pos(fn.Pos()), len(sinks) >= 1, fk+": no Write on a hash found")
+			c.Ob("C13.guard", pk, fk, "hash-writes-error-tested", p.Pos(fn.Pos()), unchecked == "", fk+": the error of the hash Write at "+unchecked+" (or of the helper that performs it) is not tested")
+			infl := ivInfluence(v, sinks, true)
+			for _, w := range []struct{ name, key string }{{"msg-hashed", "p0"}, {"dst-hashed", "p1"}, {"dst-length-hashed", "len(p1)"}, {"length-hashed", "p2"}} {
+				c.Ob("C13.guard", pk, fk, w.name, p.Pos(fn.Pos()), infl[w.key], fk+": "+w.key+" does not flow into the data written to the hash (RFC 9380 expand_message_xmd hashes msg, len_in_bytes, DST and len(DST))")
+			}
+			// the caller's buffers are inputs only
+			s := sharedEffects(p).Summary(fn)
+			for i := 0; i < 2 && i < len(fn.Params); i++ {
+				w := s.WritesRoot(i)
+				c.Ob("C13.guard", pk, fk, "input-"+fn.Params[i].Name()+"-unmodified", p.Pos(fn.Pos()), len(w) == 0, fk+": writes its input "+fn.Params[i].Name()+" (paths "+joinStr(w)+"): appending to a caller's slice overwrites its spare capacity")
+			}
+		}
 		sites, hits := unguardedAccesses(p, fn)
 		c.Instance("C13.bounds", 1)
 		_ = sites
